@@ -363,6 +363,73 @@ func runC16(c *Ctx) {
 		c.check(good, enc, "encode", enc.Pos(), "reserve / commit n / consume n on error", why+": a partially encoded frame is left in (or missing from) the write buffer")
 	}
 	_ = types.Universe
+
+	// ------------------------------------------------------------------------------------------------ R6
+	c.rule("C16-R6", "a frame is encoded into the write buffer once: when the transport write of CodecConn.WriteNext fails after Encode succeeded, either the write buffer is rolled back there or the blocking Flush does not keep (and later re-encode) that frame", 1)
+	{
+		bb := func(n string) *ssa.Function { return p.Method("sonic", "ByteBuffer", n) }
+		// (a) does WriteNext roll the write buffer back on the failing edge of the transport write?
+		rollsBack := false
+		for _, fn := range p.Funcs {
+			if fn.Name() != "WriteNext" || fn.Parent() != nil {
+				continue
+			}
+			if pk, tn := recvTypeName(fn); pk != modPath || tn != "CodecConn" {
+				continue
+			}
+			for _, wt := range callsToFn(fn, bb("WriteTo")) {
+				errv := extractOfInstr(wt.(ssa.Instruction), 1)
+				eachInstr(fn, func(in ssa.Instruction) {
+					if !(isCallToFn(in, bb("Reset")) || isCallToFn(in, bb("Consume"))) || errv == nil {
+						return
+					}
+					for _, l := range guardsOf(in.Block()) {
+						if x, eq, ok := l.nilTest(); ok && !eq {
+							for _, leaf := range phiLeaves(resolveCell(x)) {
+								if resolveCell(leaf) == errv {
+									rollsBack = true
+								}
+							}
+						}
+					}
+				})
+			}
+		}
+		// (b) does Flush keep the frame whose WriteNext failed?
+		flush := p.Method(ws, "Stream", "Flush")
+		keeps := false
+		var site ssa.Instruction
+		eachInstr(flush, func(in ssa.Instruction) {
+			call, ok := in.(ssa.CallInstruction)
+			if !ok || call.Common().StaticCallee() == nil || call.Common().StaticCallee().Name() != "WriteNext" {
+				return
+			}
+			site = in
+			// the element written: pendingFrames[i]; the queue kept afterwards: pendingFrames[k:] - the failed frame is kept
+			// when, on the failing edge, k has not been advanced past it (no increment of the kept-from counter between the
+			// failed call and the loop exit)
+			errv := extractOfInstr(in, 1)
+			for _, a := range storesTo(flush, w.pendingFrames) {
+				sl, ok := stripConv(a.Val).(*ssa.Slice)
+				if !ok || !loadOfField(sl.X, w.pendingFrames) || sl.Low == nil {
+					continue
+				}
+				// is the Low counter incremented only on the success edge?
+				for _, leaf := range phiLeaves(sl.Low) {
+					if bo, ok := stripConv(leaf).(*ssa.BinOp); ok && bo.Op == token.ADD && isConstInt(bo.Y, 1) {
+						if bi, ok := leaf.(ssa.Instruction); ok && errv != nil && guardedNil(bi.Block(), errv) {
+							keeps = true
+						}
+					}
+				}
+			}
+		})
+		if site == nil {
+			c.bad(flush, "retry", flush.Pos(), "Flush no longer writes through CodecConn.WriteNext (anchor moved)")
+		} else {
+			c.check(rollsBack || !keeps, flush, "retry after a failed write", site.Pos(), "a frame is never encoded twice", "when the transport write fails after the frame was encoded (a non-blocking socket whose send buffer fills up reports would-block mid-frame), CodecConn.WriteNext leaves the encoded bytes in the write buffer and Flush keeps the frame queued: the retry encodes it again and the peer receives the frame's bytes twice")
+		}
+	}
 }
 
 func asInstrs(cs []ssa.CallInstruction) []ssa.Instruction {
